@@ -32,13 +32,19 @@ def check(model: Model, run: Run) -> None:
         run.ob("E0-engine-fixtures", ok, {"pattern": pat, "expected_eda": exp, "found": bool(f)})
         if not ok:
             raise AnalysisError(f"EDA engine self-check failed on fixture {pat!r}")
-    sites = find_sites(model)
-    run.floor("regex use sites", len(sites), 10)
+    ambiguity(model, run, "E1-no-exponential-ambiguity", None, 10, 8)
+    # ---- scanner progress (best effort, structural) ---------------------------------------
+    progress_rule(model, run)
+
+
+def ambiguity(model: Model, run: Run, rule: str, only_module, floor_sites: int, floor_patterns: int) -> None:
+    sites = [s for s in find_sites(model) if only_module is None or s.module == only_module]
+    run.floor("regex use sites", len(sites), floor_sites)
     distinct: Dict[tuple, List] = {}
     for s in sites:
         distinct.setdefault((s.pattern, s.flags, s.api if s.api in ("match", "fullmatch") else "search"), []).append(s)
     run.coverage["patterns"] = len(distinct)
-    run.floor("distinct patterns", len(distinct), 8)
+    run.floor("distinct patterns", len(distinct), floor_patterns)
     for (pat, flags, api), ss in distinct.items():
         nfa = build(pat, flags, "match" if api != "fullmatch" else "fullmatch")
         g, finds = find_eda(nfa)
@@ -59,17 +65,15 @@ def check(model: Model, run: Run) -> None:
                 continue
             reported.add(key)
             real.append((f, fs))
-        run.ob("E1-no-exponential-ambiguity", not real, dict(label, ambiguous_forks=len(finds), with_failing_witness=len(real)))
+        run.ob(rule, not real, dict(label, ambiguous_forks=len(finds), with_failing_witness=len(real)))
         for f, (xs, ws, suf) in real[:3]:
             isb = isinstance(pat, bytes)
             fam = f'x="{show(xs, isb)}" w="{show(ws, isb)}" s="{show(suf, isb)}"'
-            run.fail(Finding("E1-no-exponential-ambiguity", f"{site0.module}.{site0.name}", f"fork@{nfa.positions[f['position']].cs!r}|{f['kind']}|w={show(ws, isb)}",
+            run.fail(Finding(rule, f"{site0.module}.{site0.name}", f"fork@{nfa.positions[f['position']].cs!r}|{f['kind']}|w={show(ws, isb)}",
                              f"pattern {site0.name} (used with .{api} in {', '.join(label['uses'][:3])}) is exponentially ambiguous: after the class "
                              f"{nfa.positions[f['position']].cs!r} {f['kind']} continue on the same input and rejoin; witness family {fam}: the input x.w^n.s is rejected "
                              "as a whole, so matching explores about 2^n runs", f"{model.relpath(site0.module)}:{site0.line}",
                              [f"pattern: {pat[:200]!r}", f"family: {fam}"]))
-    # ---- scanner progress (best effort, structural) ---------------------------------------
-    progress_rule(model, run)
 
 
 def progress_rule(model: Model, run: Run) -> None:
